@@ -7,7 +7,7 @@ from pyvc.engine import Fact, Step
 from pyvc.registry import ANY, CLASSES, Contract, Loop, lemma, scan, assumption, observation
 from contracts import shapes as S_
 from contracts import sums as Σ
-from contracts.c_utils import ETy, us
+from contracts.c_utils import ETy, us, OptET as OptET_
 from contracts.c_resources import demands_something, wf_resources, fits, disjoint_request, nonneg_vals, rv, am, RV, AM, AL, avail_sum, closed_alloc_map, RESOURCES, K, V, N, held, F
 from contracts.sums import S, RS, matches
 
@@ -139,14 +139,38 @@ Contract(
 
 _TASK_FIELDS = [f for f in S_.Task.fields if f != "_logger"]
 
+
+def _n_strategies(h, prof):
+    strategies = h.rd(prof, "workload.profile.WorkProfile", "_execution_strategies")[1]
+    return h.c_len(T.List(S_.STRAT), h.rd(strategies, "workload.strategy.ExecutionStrategies", "_strategies")[1])
+
 Contract(
     "workload.tasks.Task.__init__",
-    params={"self": S_.Task.ty, "name": T.STR, "task_graph": T.STR, "job": T.Ref("workload.jobs.Job"), "deadline": ETy},
-    trusted=True,
+    params={
+        "self": S_.Task.ty,
+        "name": T.STR,
+        "task_graph": T.STR,
+        "job": T.Ref("workload.jobs.Job"),
+        "deadline": ETy,
+        "profile": S_.nullable("workload.profile.WorkProfile"),
+        "timestamp": S_.OptINT,
+        "release_time": ETy,
+        "start_time": ETy,
+        "completion_time": ETy,
+        "probability": T.Opt(T.REAL),
+    },
+    drops=("self._id = uuid.UUID(", "self._hash = hash(", "self._last_step_time = -1", "self._preemptions = []"),
+    raises={"RuntimeError": lambda c: z3.And(us(c.arg("completion_time")) != -1, c.arg("profile") != 0, _n_strategies(c.pre, c.arg("profile")) != 1)},
     modifies=lambda c: {c.pre.fld_arr(TASK, f)[0]: [c.arg("self")] for f in _TASK_FIELDS},
-    ensures=lambda c: z3.And(c.f(c.arg("self"), TASK, "_state") == 0, c.f(c.arg("self"), TASK, "_deadline") == c.arg("deadline")),
-    note="Task.__init__ (only the keyword form used by Worker.place_task for the batch placeholder): fresh VIRTUAL task; body not verified (it mixes int and EventTime in _last_step_time and draws an id)",
-    props=P04,
+    ensures=lambda c: {
+        "init.virtual": z3.And(c.f(c.arg("self"), TASK, "_state") == 0, c.f(c.arg("self"), TASK, "_pre_scheduling_state") == 0),
+        "init.deadline": c.f(c.arg("self"), TASK, "_deadline") == c.arg("deadline"),
+        "init.names": z3.And(c.f(c.arg("self"), TASK, "_name") == c.arg("name"), c.f(c.arg("self"), TASK, "_task_graph") == c.arg("task_graph"), c.f(c.arg("self"), TASK, "_creating_job") == c.arg("job")),
+        "init.times": z3.And(c.f(c.arg("self"), TASK, "_release_time") == c.arg("release_time"), c.f(c.arg("self"), TASK, "_start_time") == c.arg("start_time"), c.f(c.arg("self"), TASK, "_completion_time") == c.arg("completion_time")),
+        "init.nothing_scheduled": z3.And(T.opt_is_none(OptET_, c.f(c.arg("self"), TASK, "_remaining_time")), c.f(c.arg("self"), TASK, "_scheduler_placement") == 0),
+    },
+    note="Task.__init__: verified; dropped: the random id and its hash, `_last_step_time = -1` (an int in a field that later holds EventTimes: left unconstrained, only read while RUNNING) and the empty preemption list",
+    props=P04 + ("C06",),
 )
 
 
